@@ -142,7 +142,9 @@ func (a SelfDelegationProxyAccount) checkSender(ctx context.Context, sender stri
 	if err != nil {
 		return sdkerrors.ErrInvalidAddress.Wrapf("invalid sender address: %s", err.Error())
 	}
-	if !bytes.Equal(rootOwner, senderBytes) {
+	// the sender field of the message is attacker-controlled: the account that
+	// actually invoked the execution must be the root owner as well
+	if !bytes.Equal(rootOwner, senderBytes) || !accountstd.HasSender(ctx, rootOwner) {
 		return sdkerrors.ErrUnauthorized
 	}
 
